@@ -321,6 +321,11 @@ def m_signature(ex, f, **kw):
         return _Signature(f.func, f.recv)
     if isinstance(f, Func):
         return _Signature(f, None)
+    if type(f).__name__ == 'CallbackVal' or (isinstance(f, Bound) and type(f.func).__name__ == 'CallbackVal'):
+        # a recording stub accepts any argument list
+        sig = _Signature.__new__(_Signature)
+        sig.bind = Builtin('bind', lambda ex, args, kwargs: Unknown('BoundArguments'))
+        return sig
     raise E.Unsupported(f'inspect.signature of {f!r}')
 
 
